@@ -19,11 +19,32 @@ import numpy as np
 import vlib
 from vlib import qlit
 
-HEADER = '''From Coq Require Import ZArith QArith List Bool.
+HEADER = '''From Coq Require Import ZArith QArith List Bool Uint63.
 From Pymoto Require Import Base.Num Base.Cmp Base.QMat Model.Eig.
 Import ListNotations.
 Open Scope Q_scope.
+(* a float64 is written as sign, 53-bit mantissa (primitive 63-bit integer: parsed ten times faster than a binary
+   positive numeral) and exponent: the dyadic number m * 2^e of Base/QMat.v *)
+Definition fp (m : int) (e : Z) : Dy := (Uint63.to_Z m, e).
+Definition fn (m : int) (e : Z) : Dy := ((- Uint63.to_Z m)%Z, e).
+Arguments fp _%uint63 _%Z.
+Arguments fn _%uint63 _%Z.
 '''
+
+
+def flit(x):
+    """exact Coq literal of a float"""
+    x = float(x)
+    if x == 0.0:
+        return 'dy0'
+    if not math.isfinite(x):
+        raise ValueError('non-finite value in a case')
+    m, e = math.frexp(abs(x))
+    mi, ee = int(m * 2 ** 53), e - 53
+    while mi % 2 == 0:
+        mi //= 2
+        ee += 1
+    return f"({'fn' if x < 0 else 'fp'} {mi} {vlib.zlit(ee)})"
 
 ERRS = {'AssertionError': 'EAssert', 'IndexError': 'EIndex', 'NotImplementedError': 'ENotImpl'}
 MODES = {'normal': 0, 'buckling': 1, 'cayley': 2}
@@ -64,7 +85,15 @@ class Recorder:
                         info['probe'] = (b, np.array(op.matvec(b)))
                     except Exception as e:  # the probe itself must not disturb the run
                         info['probe_error'] = repr(e)
-                r = orig(*a, **k)
+                k2 = k
+                if name in ('eigsh', 'eigs') and 'v0' not in k and self.probe_rng is not None:
+                    # ARPACK draws its start vector from OS entropy: supply a seeded one so that runs replay exactly
+                    n = a[0].shape[0]
+                    v0 = self.probe_rng.uniform(-1, 1, size=n)
+                    if np.iscomplexobj(a[0]) or (k.get('M') is not None and np.iscomplexobj(k['M'])) or np.iscomplexobj(k.get('sigma', 0.0)):
+                        v0 = v0 + 1j * self.probe_rng.uniform(-1, 1, size=n)
+                    k2 = dict(k, v0=v0)
+                r = orig(*a, **k2)
                 info['ret'] = r
                 return r
             finally:
@@ -216,9 +245,9 @@ class Emit:
 
     def k(self, x):
         if not self.c:
-            return qlit(Fraction(float(np.real(x))))
+            return flit(np.real(x))
         x = complex(x)
-        return f'({qlit(Fraction(x.real))}, {qlit(Fraction(x.imag))})'
+        return f'({flit(x.real)}, {flit(x.imag)})'
 
     def vec(self, v):
         return '[' + '; '.join(self.k(x) for x in np.asarray(v).ravel()) + ']'
@@ -261,13 +290,23 @@ def is_sparse(M):
     return hasattr(M, 'toarray')
 
 
-def analyse_call(ob):
+def analyse_call(ob, rec=None):
     """canonical observation of one response() call + conditioning indicators"""
     calls = ob['calls']
     A, B = ob['A'], ob['B']
     r = dict(fun=None, k=None, sigma=None, mode=None, M='MNone', probe=None, rawW=None, rawQ=None, lib_raised=False,
-             recorded=bool(calls), extra_calls=max(0, len(calls) - 1), kappa=1.0, strict=[], a_same=True)
+             recorded=bool(calls), extra_calls=max(0, len(calls) - 1), kappa=1.0, strict=[], a_same=True, alt=[],
+             unobservable=False)
     if not calls:
+        # fallback when the call cannot be recorded (e.g. the module binds the routines by from-import): the dense
+        # routines are deterministic, so the harness runs both itself; the Coq model's dispatch picks the result
+        if rec is not None and not (is_sparse(A) and (B is None or is_sparse(B))):
+            for nm in ('eigh', 'eig'):
+                try:
+                    W, Q = rec.orig[nm](A, b=B)
+                    r['alt'].append((nm.upper(), np.array(W), np.array(Q)))
+                except Exception:
+                    r['unobservable'] = True
         return r
     c = calls[0]
     r['fun'] = c['name'].upper()
@@ -323,6 +362,8 @@ def emit_case(spec, obs):
             arrs += list(ob['out'])
         an = ob['an']
         arrs += [an['rawW'], an['rawQ']]
+        for _, w_, q_ in an['alt']:
+            arrs += [w_, q_]
         if an['probe'] is not None:
             arrs += list(an['probe'])
         if an['sigma'] is not None and np.iscomplexobj(an['sigma']):
@@ -362,7 +403,7 @@ def emit_case(spec, obs):
         level = o.get('level', 0)
         if an['lib_raised']:
             level = 1
-        if not an['recorded'] and not isinstance(ob['out'], str):
+        if not an['recorded'] and (not isinstance(ob['out'], str) or an['alt']) and level == 0:
             level = 2
         fun = 'None' if an['fun'] is None or not an['a_same'] else f"(Some {an['fun']})"
         ok_ = 'None' if an['k'] is None else f"(Some {an['k']}%Z)"
@@ -385,14 +426,18 @@ def emit_case(spec, obs):
         else:
             out = ob['out']
             if level == 2:
-                raww, rawq = out
-                strict_l = [False] * len(raww)
+                if isinstance(out, str):
+                    raww, rawq = np.zeros(0), np.zeros((todense(A).shape[0], 0))
+                else:
+                    raww, rawq = out
+                strict_l = [False] * max([len(raww)] + [len(w) for _, w, _ in an['alt']])
             else:
                 raww, rawq = an['rawW'], an['rawQ']
                 strict_l = an['strict']
                 if raww is None:        # no library call and an exception: the model must predict the exception
                     raww, rawq = np.zeros(0), np.zeros((todense(A).shape[0], 0))
-            scC = max([1.0] + [(nA + abs(raww[i]) * nB) * np.abs(rawq[:, i]).max() for i in range(len(raww))]) if raww is not None else 1.0
+            scC = max([1.0] + [(nA + abs(w_[i]) * nB) * np.abs(q_[:, i]).max()
+                               for w_, q_ in [(raww, rawq)] + [(w, q) for _, w, q in an['alt']] for i in range(len(w_))])
             rawW, rawQ = em.vec(raww), em.mat(rawq)
             if isinstance(out, str):
                 outl = f"(Err {ERRS.get(out, 'EOther')})"
@@ -403,7 +448,8 @@ def emit_case(spec, obs):
                 tQ = tol_lit((np.abs(out[1]).max() if out[1].size else 1.0) * max(1.0, an['kappa'] / 10), 1e-9)
             strict = '[' + '; '.join(vlib.blit(b) for b in strict_l) + ']'
             tC = tol_lit(scC, 1e-8)
-        obs_l = (f"(Build_obs {level}%nat {fun} {ok_} {osig} {omode} {an['M']} {probe} {rawW} {rawQ} {outl} "
+        alt = '[' + '; '.join(f'({nm}, ({em.vec(w)}, {em.mat(q)}))' for nm, w, q in an['alt']) + ']' if level == 2 else '[]'
+        obs_l = (f"(Build_obs {level}%nat {fun} {ok_} {osig} {omode} {an['M']} {probe} {rawW} {rawQ} {alt} {outl} "
                  f"{strict} {tC} {tW} {tQ} {tP})")
         hops.append(f'HCall {pen} {obs_l}')
     chk = 'chkC' if cplx else 'chkQ'
@@ -899,7 +945,7 @@ def run(ctx):
                 s['stream'] = 'corpus'
                 specs.append(s)
         q = ctx.quick()
-        nd, ns, nf, nmal = (150, 36, 5, 21) if q else (1500, 300, 40, 150)
+        nd, ns, nf, nmal = (150, 36, 5, 21) if q else (900, 200, 24, 100)
         nmax = 6 if q else 8
         for i in range(nd):
             s = gen_dense_spec(rec, rng, nmax, i)
@@ -933,13 +979,16 @@ def run(ctx):
             if o['op'] == 'sigma':
                 sigma_now = o['value']
                 continue
-            ob['an'] = analyse_call(ob)
+            ob['an'] = analyse_call(ob, rec)
             if ob['an']['kappa'] > KAPPA_MAX and spec['stream'] not in ('malformed', 'corpus'):
                 illcond = True
             if ob['an']['rawW'] is not None:
                 nval += 1
         if illcond:
             ctx.count('rejected:ill-conditioned normalisation')
+            continue
+        if any(ob is not None and ob['an']['unobservable'] for ob in obs):
+            ctx.count('skipped:library call neither recorded nor reproducible')
             continue
         # expected outcome recorded in corpus entries
         if 'expect' in spec:
@@ -978,6 +1027,7 @@ def run(ctx):
     ctx.oracle_validation['library result satisfies A q = lambda M q (re-checked in Coq at 1e-8)'] = nval
 
     allc = small + big
+    ctx.extra['seconds_python_side'] = round(__import__('time').time() - ctx.t0, 1)
     failing, errs = [], []
     if small:
         f, e = vlib.run_cases(ctx, 'small', HEADER, [x[0] for x in small], chunk=24)
